@@ -194,9 +194,15 @@ func (ch c02) Run(c *core.Ctx) {
 				in = append(in, pg.Query(id)...)
 			} else {
 				var rf []int16
-				switch rng.Intn(3) {
+				switch rng.Intn(4) {
 				case 1:
 					rf = []int16{int16(rng.Intn(2))}
+				case 2:
+					// 2-6 codes, whatever the number of columns (fewer, as many, more): whatever the server makes
+					// of it, what it announces is what follows
+					for k := 2 + rng.Intn(5); k > 0; k-- {
+						rf = append(rf, int16(rng.Intn(2)))
+					}
 				}
 				// client-supplied text that may come back inside a server message (error texts echoing a value
 				// or a name): parameter values with invalid UTF-8, NUL bytes, control bytes; prespecified types
